@@ -148,7 +148,7 @@ Proof.
   destruct d; cbn [negb]; [|intros H; inversion H; reflexivity].
   destruct (msat =? 0); [intros H; inversion H; reflexivity|].
   destruct w as [db l m a n]. sx.
-  set (internal := match find (fun q => mq_hash q =? h) (d_mq db) with Some _ => true | None => false end).
+  set (internal := match same_invoice (ROk (find (fun q => mq_hash q =? h) (d_mq db))) req with Some _ => true | None => false end).
   assert (Hplan : forall (is_mpp : bool) (amount_msat qa : Z) n' wx,
      run (if (0 <? c_max_melt cfg) && (c_max_melt cfg <? qa) then fail EMeltLimit else
           Do (GetMeltQuoteByReq req) (fun ex => match ex with
